@@ -510,7 +510,7 @@ var notCovered = map[string][]string{
 	"C12": {
 		"that the reference transducer of tools/jsondoc_rows.py (whose rows every state function is proved to implement) is the RFC 8259 grammar: by inspection, not machine-checked",
 		"composition of the rows over a whole text (language equality as a theorem about Check()); Next is specified by invariants, not by the iterated transducer",
-		"tree equality with an independent decoder; of Len() only the bound Len(S) <= len(S) and the absence of out-of-range reads are proved",
+		"tree equality with an independent decoder; of Len() only the bound Len(S) <= len(S), 'does not end in a blank' and the absence of out-of-range reads are proved",
 	},
 	"C13": {"Number.String(); known findings: 0eN rejected, exponents above 2^40"},
 	"C16": {
